@@ -98,11 +98,13 @@ structure TThread (G : Graph) (sys : Sys) (s : State) (th : Thread) : Prop where
   sub : ∀ (pc : Nat) (r : Ref), th.phase = .run pc (.store r) →
     ∀ (site : Site) (c n : Nat) (kind : Kind), (sys.body th.ty)[pc]? = some (.cached site c n kind) →
       kind.isAux = false → RefTy G s r c ∧ NonStub r
-  put : th.phase = .put → ∃ r rest, th.stack = r :: rest ∧ RefTy G s r th.ty
-  call : ∀ r : Ref, th.phase = .call r → RefTy G s r th.ty
+  /-- a request that can be satisfied ends with its loader on top of the stack -/
+  put : th.phase = .put → failsTy G th.ty = false → ∃ r rest, th.stack = r :: rest ∧ RefTy G s r th.ty
+  /-- only a request that can be satisfied ever gets a loader to call -/
+  call : ∀ r : Ref, th.phase = .call r → RefTy G s r th.ty ∧ failsTy G th.ty = false
   locs : ∀ (loc : Loc) (x : Nat), (loc, x) ∈ th.locToStub → ∃ sd : StubData, s.stubs[x]? = some sd ∧ sd.loc = loc
   /-- every call has returned the unfolding of its type -/
-  res : ∀ res : Res, th.result = some res → res = unfold G sys.fuel th.depth th.ty
+  res : ∀ res : Res, th.result = some res → res = specRes G sys.fuel th.depth th.ty
 
 structure TInv (G : Graph) (sys : Sys) (s : State) : Prop where
   heap : ∀ (j : Nat) (cd : CloData), s.heap[j]? = some cd → cd.aux = false →
@@ -111,7 +113,7 @@ structure TInv (G : Graph) (sys : Sys) (s : State) : Prop where
   cache : ∀ e ∈ s.callCache, e.1.aux = false → RefTy G s e.2 e.1.const ∧ NonStub e.2
   bind : ∀ (x : Nat) (sd : StubData) (r : Ref), s.stubs[x]? = some sd → sd.target = some r →
     RefTy G s r (G.locTy sd.loc) ∧ NonStub r
-  lc : ∀ e ∈ s.loaderCache, RefTy G s e.2 e.1
+  lc : ∀ e ∈ s.loaderCache, RefTy G s e.2 e.1 ∧ failsTy G e.1 = false
   threads : ∀ (t : Tid) (th : Thread), s.threads[t]? = some th → TThread G sys s th
 
 /-- extension as far as typing is concerned: objects keep their identity, type and location -/
@@ -149,10 +151,10 @@ theorem TThread.mono {G : Graph} {sys : Sys} {s s' : State} {th : Thread} (h : T
   sub := fun pc r hp site c n kind hins hk => by
     obtain ⟨h1, h2⟩ := h.sub pc r hp site c n kind hins hk
     exact ⟨h1.mono e, h2⟩
-  put := fun hp => by
-    obtain ⟨r, rest, h1, h2⟩ := h.put hp
+  put := fun hp hnf => by
+    obtain ⟨r, rest, h1, h2⟩ := h.put hp hnf
     exact ⟨r, rest, h1, h2.mono e⟩
-  call := fun r hp => (h.call r hp).mono e
+  call := fun r hp => ⟨(h.call r hp).1.mono e, (h.call r hp).2⟩
   locs := fun loc x hm => by
     obtain ⟨sd, h1, h2⟩ := h.locs loc x hm
     obtain ⟨sd', h3, h4⟩ := e.stubs x sd h1
@@ -170,7 +172,7 @@ theorem TInv.frame {G : Graph} {sys : Sys} {s s' : State} {t : Tid} {th' : Threa
     (hbind : ∀ (x : Nat) (sd' : StubData) (r : Ref), s'.stubs[x]? = some sd' → sd'.target = some r →
       (∃ sd : StubData, s.stubs[x]? = some sd ∧ sd.target = some r ∧ sd.loc = sd'.loc) ∨
       (RefTy G s' r (G.locTy sd'.loc) ∧ NonStub r))
-    (hlc : ∀ en ∈ s'.loaderCache, en ∈ s.loaderCache ∨ RefTy G s' en.2 en.1)
+    (hlc : ∀ en ∈ s'.loaderCache, en ∈ s.loaderCache ∨ (RefTy G s' en.2 en.1 ∧ failsTy G en.1 = false))
     (hself : TThread G sys s' th') : TInv G sys s' where
   heap := fun j cd hj haux => by
     cases hold : s.heap[j]? with
@@ -192,7 +194,7 @@ theorem TInv.frame {G : Graph} {sys : Sys} {s s' : State} {t : Tid} {th' : Threa
     · exact h
   lc := fun en hen => by
     rcases hlc en hen with h | h
-    · exact (ht.lc en h).mono e
+    · exact ⟨(ht.lc en h).1.mono e, (ht.lc en h).2⟩
     · exact h
   threads := fun t' th'' ht' => by
     rw [hthreads, List.getElem?_set] at ht'
@@ -229,14 +231,19 @@ theorem absAt_succ {G : Graph} {code : List Instr} {pc : Nat} {ins : Instr} (h :
   cases absStep G st ins <;> rfl
 
 theorem typed_final {G : Graph} {code : List Instr} {ty : TyId} (h : typed G code ty = true) :
-    absAt G code code.length = some [(ty, false)] := by
+    absAt G code code.length = some (if failsTy G ty then [] else [(ty, false)]) := by
   unfold absAt
   rw [List.take_length]
   simpa [typed] using h
 
+/-- the program of a request that can be satisfied ends with exactly the loader of the requested type -/
+theorem typed_final_ok {G : Graph} {code : List Instr} {ty : TyId} (h : typed G code ty = true)
+    (hnf : failsTy G ty = false) : absAt G code code.length = some [(ty, false)] := by
+  rw [typed_final h, hnf]; rfl
+
 theorem absAt_some_of_typed {G : Graph} {code : List Instr} {ty : TyId} (h : typed G code ty = true)
     (pc : Nat) : ∃ st, absAt G code pc = some st := by
-  have h1 : absRun G (code.take pc ++ code.drop pc) [] = some [(ty, false)] := by
+  have h1 : absRun G (code.take pc ++ code.drop pc) [] = some (if failsTy G ty then [] else [(ty, false)]) := by
     rw [List.take_append_drop]; simpa [typed] using h
   rw [absRun_append] at h1
   unfold absAt
